@@ -185,22 +185,54 @@ func buildReplayTest(o *Obligation) (*replaySrc, bool) {
 	}
 	name := "TestVerifReplay_" + sanitizeIdent(o.Name)
 	var b strings.Builder
-	fmt.Fprintf(&b, "package %s\n\nimport \"testing\"\n\n", ri.pkgName)
+	clauseGo := ""
+	imports := map[string]bool{}
+	if o.Kind == "ensures" && o.Clause != nil {
+		cg, imps, ok, _ := clauseToGo(fn, o.Clause)
+		if !ok {
+			return nil, false
+		}
+		clauseGo, imports = cg, imps
+	}
+	fmt.Fprintf(&b, "package %s\n\nimport (\n\t\"testing\"\n", ri.pkgName)
+	for _, im := range sortedKeys(imports) {
+		fmt.Fprintf(&b, "\t%q\n", im)
+	}
+	fmt.Fprintf(&b, ")\n\n")
 	fmt.Fprintf(&b, "// generated by govc from the solver model of failed obligation\n// %s (%s)\n", o.Name, o.Desc)
 	fmt.Fprintf(&b, "func %s(t *testing.T) {\n", name)
 	fmt.Fprintf(&b, "\tdefer func() {\n\t\tif r := recover(); r != nil {\n\t\t\tt.Fatalf(\"REPLAY-PANIC: %%v\", r)\n\t\t}\n\t}()\n")
+	for i, p := range fn.Params {
+		fmt.Fprintf(&b, "\tin_%s := %s\n\t_ = in_%s\n", p.Name(), args[i], p.Name())
+	}
 	nres := fn.Signature.Results().Len()
+	var rs, ins []string
+	for i := 0; i < nres; i++ {
+		rs = append(rs, fmt.Sprintf("r%d", i))
+	}
+	for _, p := range fn.Params {
+		if _, isSlice := p.Type().Underlying().(*types.Slice); isSlice && clauseGo != "" {
+			// the callee may write its input: hand it a copy so that the clause sees the entry value
+			ins = append(ins, fmt.Sprintf("append(%s(nil), in_%s...)", types.TypeString(p.Type(), func(*types.Package) string { return "" }), p.Name()))
+		} else {
+			ins = append(ins, "in_"+p.Name())
+		}
+	}
 	lhs := ""
 	if nres > 0 {
-		var us []string
-		for i := 0; i < nres; i++ {
-			us = append(us, "_")
-		}
-		lhs = strings.Join(us, ", ") + " = "
+		lhs = strings.Join(rs, ", ") + " := "
 	}
-	fmt.Fprintf(&b, "\t%s%s(%s)\n", lhs, fn.Name(), strings.Join(args, ", "))
+	fmt.Fprintf(&b, "\t%s%s(%s)\n", lhs, fn.Name(), strings.Join(ins, ", "))
+	for _, r := range rs {
+		fmt.Fprintf(&b, "\t_ = %s\n", r)
+	}
+	kind := "panic"
+	if clauseGo != "" {
+		kind = "ensures"
+		fmt.Fprintf(&b, "\tif !(%s) {\n\t\tt.Fatalf(\"REPLAY-VIOLATION: clause %%s does not hold on the real code for this input\", %q)\n\t}\n", clauseGo, o.Desc)
+	}
 	fmt.Fprintf(&b, "}\n")
-	return &replaySrc{Source: b.String(), PkgDir: ri.pkgDir, ModDir: ri.modDir, Run: name, PkgName: ri.pkgName, Kind: "panic"}, true
+	return &replaySrc{Source: b.String(), PkgDir: ri.pkgDir, ModDir: ri.modDir, Run: name, PkgName: ri.pkgName, Kind: kind}, true
 }
 
 func sanitizeIdent(s string) string {
